@@ -308,12 +308,15 @@ struct UdpClient {
     next_id: u16,
     used: u32,
     server: SocketAddr,
+    /// every id sent on this socket -> number of replies seen carrying it
+    reply_count: HashMap<u16, u32>,
 }
 
 struct Observed {
+    /// the reply to the transmission recorded in `sent` (at most one is kept; `duplicates` counts more for the same id)
     replies: Vec<Vec<u8>>,
     attempts: u32,
-    /// bytes actually sent in the last attempt (with the id assigned)
+    /// bytes of the transmission that was answered (or of the last one, if none was)
     sent: Vec<u8>,
 }
 
@@ -327,6 +330,7 @@ impl UdpClient {
             next_id: 1,
             used: 0,
             server,
+            reply_count: HashMap::new(),
         }
     }
 
@@ -337,8 +341,9 @@ impl UdpClient {
     }
 
     /// Send every message (id overwritten by a strictly increasing one where the message has room for an id), collect
-    /// replies per message, retry silent ones (when a reply is due) up to 3 times.  Returns per message what was seen,
-    /// plus datagrams that match no id sent on this socket.
+    /// replies per message, retransmit silent ones (when a reply is due) up to 3 times — every transmission is a
+    /// message of its own with its own id, and exactly-once is judged per id.  Returns per message what was seen, plus
+    /// datagrams that carry an id never sent on this socket, plus ids answered more than once.
     fn run_chunk(&mut self, msgs: &[Vec<u8>], due: &[bool]) -> (Vec<Observed>, Vec<Vec<u8>>) {
         self.fresh_socket_if_needed(msgs.len());
         let mut obs: Vec<Observed> = msgs
@@ -349,7 +354,8 @@ impl UdpClient {
                 sent: m.clone(),
             })
             .collect();
-        let mut id_to_idx: HashMap<u16, usize> = HashMap::new();
+        // id -> (message index, bytes of that transmission)
+        let mut id_to_tx: HashMap<u16, (usize, Vec<u8>)> = HashMap::new();
         let mut strays: Vec<Vec<u8>> = Vec::new();
         let mut pending: Vec<usize> = (0..msgs.len()).collect();
         for attempt in 0..3 {
@@ -364,16 +370,19 @@ impl UdpClient {
                     self.used += 1;
                     b[0] = (id >> 8) as u8;
                     b[1] = id as u8;
-                    id_to_idx.insert(id, i);
+                    id_to_tx.insert(id, (i, b.clone()));
+                    self.reply_count.insert(id, 0);
                 }
                 obs[i].attempts += 1;
                 let _ = self.sock.send(&b);
-                obs[i].sent = b;
+                if obs[i].replies.is_empty() {
+                    obs[i].sent = b;
+                }
             }
-            // collect until quiet
+            // collect until quiet (generous on retransmissions: wall-clock only decides how long we wait, never the verdict)
             let mut quiet = 0;
             let mut buf = [0u8; 2048];
-            let deadline = Instant::now() + Duration::from_millis(if attempt == 0 { 1500 } else { 2500 });
+            let quiet_limit = [25, 100, 400][attempt];
             loop {
                 match self.sock.recv(&mut buf) {
                     Ok(n) => {
@@ -381,16 +390,22 @@ impl UdpClient {
                         let d = buf[..n].to_vec();
                         if n >= 2 {
                             let id = u16::from_be_bytes([d[0], d[1]]);
-                            if let Some(&i) = id_to_idx.get(&id) {
-                                // only replies to the *current* transmission count for exactly-once
-                                if obs[i].sent.len() >= 2 && obs[i].sent[..2] == d[..2] {
-                                    obs[i].replies.push(d);
-                                } else {
-                                    // a late reply to an earlier transmission of the same message: the retry was unnecessary
-                                    obs[i].replies.push(d);
-                                    obs[i].sent[0] = (id >> 8) as u8;
-                                    obs[i].sent[1] = id as u8;
+                            if let Some(c) = self.reply_count.get_mut(&id) {
+                                *c += 1;
+                                let again = *c > 1;
+                                if let Some((i, tx)) = id_to_tx.get(&id) {
+                                    if again {
+                                        // the same id answered twice: keep both so that the caller reports it
+                                        obs[*i].replies.push(d);
+                                    } else if obs[*i].replies.is_empty() {
+                                        obs[*i].sent = tx.clone();
+                                        obs[*i].replies.push(d);
+                                    }
+                                    // else: the reply to another transmission of a message already answered — fine
+                                } else if again {
+                                    strays.push(d); // a second reply to an id of an earlier chunk
                                 }
+                                // else: a late first reply to a transmission of an earlier chunk (already judged) — ignore
                                 continue;
                             }
                         }
@@ -399,7 +414,7 @@ impl UdpClient {
                     Err(_) => {
                         quiet += 1;
                         let all_in = pending.iter().all(|&i| !due[i] || !obs[i].replies.is_empty());
-                        if (all_in && quiet >= 3) || quiet >= if attempt == 0 { 25 } else { 75 } || Instant::now() > deadline {
+                        if (all_in && quiet >= 3) || quiet >= quiet_limit {
                             break;
                         }
                     }
@@ -469,6 +484,10 @@ fn write_c09_config(dir: &Path) -> (Vec<String>, Vec<DomainName>) {
     for i in 0..9 {
         z.push_str(&format!("edge 300 IN TXT \"{}\"\n", format!("{i}").repeat(40)));
     }
+    // replies stepping across the 512-byte limit one byte at a time (TXT of 350..=450 octets)
+    for k in 0..=100usize {
+        z.push_str(&format!("sz{k:03} 300 IN TXT \"{}\"\n", "s".repeat(350 + k)));
+    }
     z.push_str("alias1 300 IN CNAME alias2\nalias2 300 IN CNAME alias3\nalias3 300 IN CNAME www\nloop1 300 IN CNAME loop2\nloop2 300 IN CNAME loop1\nout 300 IN CNAME www.elsewhere.example.\n");
     z.push_str("*.wild 300 IN TXT \"wildcard\"\nent.deep.er 300 IN A 10.9.0.3\nsub 300 IN NS ns.sub\nmail 300 IN MX 10 www\n");
     std::fs::write(dir.join("zones/bb.test.zone"), z).unwrap();
@@ -482,6 +501,7 @@ fn write_c09_config(dir: &Path) -> (Vec<String>, Vec<DomainName>) {
     ]
     .iter()
     .map(|s| dn(s))
+    .chain((0..=100usize).map(|k| dn(&format!("sz{k:03}.bb.test."))))
     .collect();
     (args, names)
 }
@@ -849,7 +869,7 @@ fn c09_mode(args: &Args, run: &Run, authoritative_only: bool, salt: u64) -> Resu
                 sh.nontrivial(fnv_mix(fnv(&o.sent[2..]), salt));
                 // TC / 512 rule and section semantics through the TCP twin
                 if let Expect::Resolve(q) = exp {
-                    if rng.chance(1, 3) || reply[2] & 2 != 0 {
+                    if rng.chance(1, 3) || reply[2] & 2 != 0 || reply.len() >= 500 {
                         match tcp_exchange(addr, &framed(&o.sent), false) {
                             Ok(t) if t.len() >= 2 => {
                                 let body = &t[2..];
